@@ -36,16 +36,27 @@ func sigDigits(lit string) (n int, exp bool) {
 
 // C04: float conversion is correctly rounded (== strconv.ParseFloat), with exact offsets.
 func RunC04(c *Ctx) {
-	run := func(sinkFam func(workload.Sink)) {
-		sinkFam(func(cs *h.Case) {
-			if !c.Mine(cs.Input) {
-				return
-			}
-			c.Rec.R.Cases++
-			c.Rec.R.Counters["family_"+cs.Family]++
-			c.Mark("C04 "+cs.Family, cs.Input)
-			checkFloatLiteral(c, cs)
-		})
+	// The W6 generators are expensive (exact big-number midpoints), so these families are
+	// sharded by generator index (row / float / exponent) instead of by input hash; each
+	// worker still skips literals it has already seen.
+	mineIdx := func(i int) bool { return c.NShards <= 1 || i%c.NShards == c.Shard }
+	local := func(cs *h.Case) {
+		if !c.Rec.FirstSight(h.Hash(cs.Input)) {
+			return
+		}
+		c.Rec.R.Cases++
+		c.Rec.R.Counters["family_"+cs.Family]++
+		c.Mark("C04 "+cs.Family, cs.Input)
+		checkFloatLiteral(c, cs)
+	}
+	hashed := func(cs *h.Case) {
+		if !c.Mine(cs.Input) {
+			return
+		}
+		c.Rec.R.Cases++
+		c.Rec.R.Counters["family_"+cs.Family]++
+		c.Mark("C04 "+cs.Family, cs.Input)
+		checkFloatLiteral(c, cs)
 	}
 	if c.Replay != nil {
 		cs := &h.Case{Family: c.Replay.Family, Desc: c.Replay.Desc, Input: c.Replay.Input()}
@@ -53,23 +64,21 @@ func RunC04(c *Ctx) {
 		return
 	}
 	th := c.Thorough()
-	perRow, nfl, perExp := 150, 4000, 40
+	perRow, nfl, perExp := 400, 12000, 100
 	if th {
-		perRow, nfl, perExp = 3000, 60000, 400
+		perRow, nfl, perExp = 4000, 100000, 600
 	}
-	run(func(s workload.Sink) { workload.W6Rows(perRow, c.Seed, s) })
-	run(func(s workload.Sink) { workload.W6Generic(nfl, th, c.Seed, s) })
-	run(func(s workload.Sink) { workload.W6Exponents(perExp, c.Seed, s) })
-	run(workload.W6Special)
+	workload.W6Rows(perRow, c.Seed, local, mineIdx)
+	workload.W6Generic(nfl, th, c.Seed, local, mineIdx)
+	workload.W6Exponents(perExp, c.Seed, local, mineIdx)
+	workload.W6Special(hashed)
 	// every number literal of the document pools, and the W1 number tokens
-	run(func(s workload.Sink) {
-		cs := &h.Case{Family: "pool"}
-		for _, lit := range append(append([]string{}, workload.NumPool...), workload.NumberTokens...) {
-			cs.Input = []byte(lit)
-			cs.Desc = "pool literal"
-			s(cs)
-		}
-	})
+	cs := &h.Case{Family: "pool"}
+	for _, lit := range append(append([]string{}, workload.NumPool...), workload.NumberTokens...) {
+		cs.Input = []byte(lit)
+		cs.Desc = "pool literal"
+		hashed(cs)
+	}
 }
 
 func checkFloatLiteral(c *Ctx, cs *h.Case) {
